@@ -165,15 +165,11 @@ class PDFTextDevice(PDFDevice):
         graphicstate: "PDFGraphicState",
     ) -> Point:
         (x, y) = pos
-        needcharspace = False
         for obj in seq:
             if isinstance(obj, (int, float)):
                 x -= obj * dxscale
-                needcharspace = True
             elif isinstance(obj, bytes):
                 for cid in font.decode(obj):
-                    if needcharspace:
-                        x += charspace
                     x += self.render_char(
                         utils.translate_matrix(matrix, (x, y)),
                         font,
@@ -184,9 +180,11 @@ class PDFTextDevice(PDFDevice):
                         ncs,
                         graphicstate,
                     )
+                    # ISO 32000-1 9.4.4: character spacing (and word spacing for the
+                    # single-byte code 32) is added to the displacement of every glyph.
+                    x += charspace
                     if cid == 32 and wordspace:
                         x += wordspace
-                    needcharspace = True
             else:
                 logger.warning(
                     f"Cannot render horizontal string because {obj!r} is not a valid int, float or bytes."
@@ -209,15 +207,11 @@ class PDFTextDevice(PDFDevice):
         graphicstate: "PDFGraphicState",
     ) -> Point:
         (x, y) = pos
-        needcharspace = False
         for obj in seq:
             if isinstance(obj, (int, float)):
                 y -= obj * dxscale
-                needcharspace = True
             elif isinstance(obj, bytes):
                 for cid in font.decode(obj):
-                    if needcharspace:
-                        y += charspace
                     y += self.render_char(
                         utils.translate_matrix(matrix, (x, y)),
                         font,
@@ -228,9 +222,11 @@ class PDFTextDevice(PDFDevice):
                         ncs,
                         graphicstate,
                     )
+                    # ISO 32000-1 9.4.4: character spacing (and word spacing for the
+                    # single-byte code 32) is added to the displacement of every glyph.
+                    y += charspace
                     if cid == 32 and wordspace:
                         y += wordspace
-                    needcharspace = True
             else:
                 logger.warning(
                     f"Cannot render vertical string because {obj!r} is not a valid int, float or bytes."
